@@ -538,6 +538,34 @@ pub fn history_checks(case: &SCase, rp: &Report, prop: &str) -> Option<(String, 
             }
         }
     }
+    // C04 / C14 under concurrency: while a cache with limit N has seen at most N distinct keys, nothing
+    // may be evicted, so a value whose storing call has returned must be served to every later caller
+    if only_calls {
+        for c in rp.calls.iter().filter(|c| c.executed) {
+            let s = spec(c.f);
+            let n = match s.limit {
+                Some(n) => n,
+                None => continue,
+            };
+            if s.ttl.is_some() || s.max_memory.is_some() || s.has_inv_on || s.has_cache_if || s.is_result || s.family == "nested" {
+                continue;
+            }
+            let distinct: BTreeSet<Key> = case.threads.iter().flatten().filter_map(|op| match op {
+                SOp::Call { f, k } if *f == c.f => Some(*k),
+                _ => None,
+            }).collect();
+            if distinct.len() > n {
+                continue;
+            }
+            if let Some(d) = rp.calls.iter().find(|d| d.executed && d.f == c.f && d.k == c.k && d.ret < c.invoke) {
+                return Some((
+                    "evicted_below_limit".into(),
+                    vec!["C04".into(), "C14".into()],
+                    format!("{}({}) [{}] ran its body in a call invoked at event {} although a call that stored it had returned at event {} and the program uses only {} distinct keys (limit {n}): an entry was evicted without overflow", s.fn_name, c.k, s.attrs, c.invoke, d.ret, distinct.len()),
+                ));
+            }
+        }
+    }
     // C12 under concurrency: an entry whose storing call had returned before a matching group
     // invalidation was invoked must not be served to a call invoked after that invalidation returned
     for c in rp.calls.iter().filter(|c| !c.executed) {
@@ -821,6 +849,7 @@ pub fn gen_case(prop: &str, seed: u64) -> (SCase, Sched) {
         .iter()
         .filter(|s| registered(s))
         .filter(|s| match prop {
+            "C04" | "C14" => s.limit.is_some() && s.ttl.is_none() && s.max_memory.is_none() && !s.has_inv_on && !s.has_cache_if && !s.is_result && s.family != "nested",
             "C03" => s.limit.is_none() && s.ttl.is_none() && s.max_memory.is_none() && !s.has_inv_on && !s.has_cache_if && !s.is_result,
             // nested bodies perform lookups that are not top-level calls of the program
             "C15" => s.family != "nested",
@@ -863,14 +892,19 @@ pub fn gen_case(prop: &str, seed: u64) -> (SCase, Sched) {
             fns.push(s.id);
         }
     }
-    let only_calls = matches!(prop, "C03" | "C15");
+    let only_calls = matches!(prop, "C03" | "C15" | "C04" | "C14");
     let mut threads = Vec::new();
     for _ in 0..nthreads {
         let mut ops = Vec::new();
         for _ in 0..r.range(2, 6) {
             let f = *r.pick(&fns);
             let s = spec(f);
-            let nk = (s.nkeys as u64).min(s.limit.unwrap_or(2) as u64 + 2).max(1);
+            let nk = if matches!(prop, "C04" | "C14") {
+                // no more distinct keys than the limit: nothing may ever be evicted
+                (s.nkeys as u64).min(s.limit.unwrap_or(1) as u64).max(1)
+            } else {
+                (s.nkeys as u64).min(s.limit.unwrap_or(2) as u64 + 2).max(1)
+            };
             if prop == "C15" && s.ttl.is_some() && r.chance(1, 5) {
                 // time passes between the calls: expired lookups race with stores
                 ops.push(SOp::Adv(*r.pick(&[SEC, 2 * SEC, 3 * SEC])));
